@@ -437,8 +437,11 @@ ocp.set_der(v, a)
         ubs = defaultdict(list)
         canons = defaultdict(list)
         for c, meta, args in stage._constraints["control"]:
-            key = (args["refine"],args["group_refine"])
             (lb,canon,ub), mc = self.constraint_inspector.canon(c)
+            # Constraints are only lumped when they live on the same points:
+            #  same include_first/include_last, same set of next/prev/offset shifts
+            offsets = tuple(sorted(set(stage._offsets[s][1] for s in ca.symvar(canon) if s in stage._offsets)))
+            key = (args["refine"],args["group_refine"],args["include_first"],args["include_last"],offsets)
 
             lbs[key].append(lb)
             ubs[key].append(ub)
@@ -448,12 +451,20 @@ ocp.set_der(v, a)
 
         # Loop over lumps
         for k in keys:
-            (refine,group_refine) = k
+            (refine,group_refine,include_first,include_last,offsets) = k
             lb = ca.vcat(lbs[k])
             ub = ca.vcat(ubs[k])
             canon = ca.vcat(canons[k])
 
             _,results = self.grid_control(stage, canon, 'control', refine=refine)
+            # The first (last) column is the start (end) of the horizon unless a shift made that instance drop out already
+            skip_first = not include_first and min(offsets+(0,))==0
+            skip_last = not include_last and max(offsets+(0,))==0
+            if not group_refine:
+                if skip_first:
+                    results = results[:,1:]
+                if skip_last:
+                    results = results[:,:-1]
             assert canon.is_column()
             canon_sym = MX.sym("canon_sym",canon.size1(),refine)
             # Do a grouping along refinement grid if requested
@@ -482,10 +493,12 @@ ocp.set_der(v, a)
                 results_end = results_split[1]
                 if not lb_inf:
                     opti.subject_to(self.eval(stage, lb <= results_min))
-                    opti.subject_to(self.eval(stage, lb <= results_end))
+                    if not skip_last:
+                        opti.subject_to(self.eval(stage, lb <= results_end))
                 if not ub_inf:
                     opti.subject_to(self.eval(stage, results_max <= ub))
-                    opti.subject_to(self.eval(stage, results_end <= ub))
+                    if not skip_last:
+                        opti.subject_to(self.eval(stage, results_end <= ub))
             else:
                 n = results.shape[1]
                 lb = ca.repmat(lb,1,n)
